@@ -388,6 +388,20 @@ pub fn run_populations(input: &mut dyn std::io::BufRead, out: &mut dyn Write) {
         let mut dom = WeakDom::new(rbx_dom_weak::InstanceBuilder::new("DataModel"));
         let root = dom.root_ref();
         let mut roots = Vec::new();
+        let companion = |dom: &mut WeakDom, roots: &mut Vec<Ref>| {
+            let c = &case["companion"];
+            let cclass = c["class"].as_str().unwrap();
+            let mut b = rbx_dom_weak::InstanceBuilder::new(cclass).with_name("Companion");
+            for (j, n) in c["props"].as_array().unwrap().iter().enumerate() {
+                let n = n.as_str().unwrap();
+                b.add_property(n, value_for_spelling(cclass, n, 900 + j as u32));
+            }
+            roots.push(dom.insert(root, b));
+        };
+        let companion_first = case["companion"]["first"].as_bool();
+        if companion_first == Some(true) {
+            companion(&mut dom, &mut roots);
+        }
         for (i, names) in case["insts"].as_array().unwrap().iter().enumerate() {
             let id = case["ids"].as_array().map(|a| a[i].as_u64().unwrap() as u32).unwrap_or(i as u32 + 1);
             let mut b = rbx_dom_weak::InstanceBuilder::new(class).with_name(format!("I{}", id));
@@ -396,6 +410,9 @@ pub fn run_populations(input: &mut dyn std::io::BufRead, out: &mut dyn Write) {
                 b.add_property(n, value_for_spelling(class, n, id * 10 + j as u32));
             }
             roots.push(dom.insert(root, b));
+        }
+        if companion_first == Some(false) {
+            companion(&mut dom, &mut roots);
         }
         let mut ev = bin_event_modes(case["ep"].as_str().unwrap(), &dom, &roots, false, &[CompressionType::None]);
         ev["op"] = json!("bin_pop");
